@@ -88,6 +88,11 @@ def shrink_and_save(mod, scenario, viol, seed, replay_dir, timeout_s, budget_s):
                'scenario': small, 'violation': v2[0] if v2 else viol,
                'digest': out.get('digest'), 'minimised_from': sizes},
               f, indent=1, sort_keys=True)
+  # the unminimised scenario as well: shrinking happens in this long-lived worker, and a system under test that keeps
+  # hidden state across scenarios can make the minimised scenario depend on what earlier runs left behind
+  with open(path[:-5] + '.orig.json', 'w') as f:
+    json.dump({'property': mod.PROP, 'seed': seed, 'vsim_version': 1, 'scenario': scenario, 'violation': viol,
+               'minimised_from': sizes, 'unminimised': True}, f, indent=1, sort_keys=True)
   return path
 
 
